@@ -26,7 +26,9 @@ From Verif Require Import Base.Prelude Base.Str Base.Float Base.GoVal
   Schema.Regex Schema.Units Schema.FloatUnits Schema.Syntax Schema.Ops Schema.Cbor
   Generated.Tables Proofs.CborNorm ATP.Msg ATP.Server Proofs.Server Proofs.ServerRoute.
 From Verif Require ATP.Client ATP.System Proofs.ATPClientInv Proofs.C05Vocab Proofs.C05System Proofs.C05Live
-  Proofs.C05ClientHalf Proofs.C05Examples.
+  Proofs.C05ClientHalf Proofs.C05Examples Proofs.C05Close Proofs.C05CloseEx
+  Call.Step ATP.SystemV Proofs.C05Transparent Proofs.C05TransparentEx Proofs.C05V1Serial
+  Proofs.C05Param Proofs.C05Shutdown ATP.SystemVal Proofs.C05Image Proofs.C05ImageEx.
 Import ListNotations.
 Open Scope Z_scope.
 Open Scope list_scope.
@@ -187,8 +189,11 @@ End Examples.
 (* ------------------------------------------------------------------------------------------
    PROTOCOL LAYER — the plan as it was fixed before the composed model existed (kept for
    reference; the theorems actually proved over the composition ATP/System.v are at the END of
-   this file: C05_refines, C05_never_cross_delivered, C05_every_execute_returns,
-   C05_rejected_is_error, C05_client_routes_by_run_id, C05_v1_concurrent_refuted).
+   this file: C05_never_cross_delivered, C05_refines_with_close (sessions with or without Close;
+   C05_every_execute_returns / C05_refines / C05_rejected_is_error are its close = false instances),
+   C05_clean_shutdown, C05_client_routes_by_run_id, the end-to-end statements over values
+   C05_transparent_end_to_end / C05_transparent_values (with C05_client_payload_parametric,
+   C05_value_level_is_image), C05_v1_concurrent_refuted and C05_v1_serial).
 
    Notation for the composition:
      sys N calls sched   the run of one client and one server, protocol version 3, where the
@@ -409,3 +414,330 @@ Example C05_refines_hypotheses_hold :
   (forall x, In x Verif.Proofs.C05Examples.ex_calls -> Verif.ATP.Client.cs_run x <> ""%string) /\
   Verif.Proofs.ATPClientInv.wf_session (Verif.ATP.System.sys_session Verif.Proofs.C05Examples.ex_calls false).
 Proof. exact Verif.Proofs.C05Examples.ex_hyps. Qed.
+
+(* (P7) REFINEMENT WITH CLOSE.  The same composition, the harness calls Close (`close = true`: the closer goroutine of
+   ATP/Client.v; its first step - the cancellation - is enabled once every Execute has written its work-start, i.e.
+   Close runs concurrently with the calls in flight or after they have returned; `close = false` gives C05_refines
+   again).  At the end of EVERY maximal execution: every Execute has returned `spec_callstep` of its own input - the
+   result, not merely "a result or an error": client-done is written behind every work-start and the server finishes
+   every accepted run before it closes workDone -, AND Close has returned nil (KDone CloseOk), the client's wait group is
+   0, the read loop has exited, every signal writer has exited: nothing the client started is left blocked.
+   New invariant (Proofs/C05Close.v CInv): FIFO order of the client -> server stream as a whole (pipe + server input):
+   no accepted work-start behind the first client-done; once the server has consumed client-done no accepted
+   work-start is left unread.  With it the server model's accounting (one terminal message per accepted work-start)
+   reaches every call, and `server_idle2` covers the deferred / gone states of the server's run() goroutine. *)
+Theorem C05_refines_with_close :
+  forall (g : Verif.ATP.System.scfg) (calls : list (Verif.ATP.Client.callspec Z)) (close : bool),
+    (forall x, In x calls -> Verif.ATP.Client.cs_run x <> ""%string) ->
+    Verif.Proofs.ATPClientInv.wf_session (Verif.ATP.System.sys_session calls close) ->
+    forall (sched : list Verif.ATP.System.slabel) (s : Verif.ATP.System.sstate),
+      Verif.ATP.System.sys_run g (Verif.ATP.System.sys_init calls close) sched = Some s ->
+      Verif.ATP.System.sys_final g s ->
+      (forall i x, nth_error calls i = Some x ->
+         Verif.ATP.System.sys_result s i = Some (Verif.ATP.System.spec_callstep g (Verif.ATP.Client.cs_input x))) /\
+      (close = true ->
+         Verif.ATP.Client.closer (Verif.ATP.System.cl s) = Verif.ATP.Client.KDone Verif.ATP.Client.CloseOk /\
+         Verif.ATP.Client.wg (Verif.ATP.System.cl s) = 0%nat /\
+         Verif.ATP.Client.loop_live (Verif.ATP.Client.cur (Verif.ATP.System.cl s)) = false /\
+         forall i c, nth_error (Verif.ATP.Client.callers (Verif.ATP.System.cl s)) i = Some c ->
+                     Verif.ATP.Client.c_spc c = Verif.ATP.Client.SNone \/ Verif.ATP.Client.c_spc c = Verif.ATP.Client.SExit).
+Proof. exact Verif.Proofs.C05Close.sys_refines_close. Qed.
+Print Assumptions C05_refines_with_close.
+
+(* ---- non-vacuity: the three overlapping calls of C05_refines_nonvacuous with Close called WHILE they are in flight
+   (client-done is written right behind the three work-starts); the schedule ends in a state in which no label is
+   enabled: the three results are the specified ones, Close has returned nil, and on the server side the closure
+   handler has returned and the run() goroutine is gone ---- *)
+Example C05_refines_with_close_nonvacuous :
+  (* exc_final := sys_run ex_g (sys_init ex_calls true) exc_sched  (Proofs/C05CloseEx.v) *)
+  exists s, Verif.Proofs.C05CloseEx.exc_final = Some s /\
+            Verif.ATP.System.sys_final Verif.Proofs.C05Examples.ex_g s /\
+            Verif.ATP.System.sys_result s 0%nat = Some (Verif.ATP.Client.ROk "success"%string 10) /\
+            Verif.ATP.System.sys_result s 1%nat = Some (Verif.ATP.Client.ROk "other"%string 30) /\
+            Verif.ATP.System.sys_result s 2%nat = Some (Verif.ATP.Client.RErr Verif.ATP.Client.ErrStep) /\
+            Verif.ATP.Client.closer (Verif.ATP.System.cl s) = Verif.ATP.Client.KDone Verif.ATP.Client.CloseOk /\
+            Verif.ATP.Client.wg (Verif.ATP.System.cl s) = 0%nat /\
+            Verif.ATP.Server.hp (Verif.ATP.System.sv s) = Verif.ATP.Server.HReturned /\
+            Verif.ATP.Server.rl (Verif.ATP.System.sv s) = Verif.ATP.Server.RGone.
+Proof. exact Verif.Proofs.C05CloseEx.exc_refines. Qed.
+
+Example C05_refines_with_close_hypotheses_hold :
+  (forall x, In x Verif.Proofs.C05Examples.ex_calls -> Verif.ATP.Client.cs_run x <> ""%string) /\
+  Verif.Proofs.ATPClientInv.wf_session (Verif.ATP.System.sys_session Verif.Proofs.C05Examples.ex_calls true).
+Proof. exact Verif.Proofs.C05CloseEx.exc_hyps. Qed.
+
+(* ==========================================================================================
+   (P8) END TO END: THE DATA LAYER COMPOSED WITH THE PROTOCOL LAYER (ATP/SystemV.v).
+
+   The composition ATP/System.v moves opaque payloads: the client model is parametric in the payload type and never
+   inspects a payload, the server model consults it only through its behaviour oracle.  ATP/SystemV.v instantiates the
+   payloads at the data level - a payload is a NAME for a `gval`:
+     vcalls : list (callspec gval)   the session as the harness states it: run ids, lanes, signal channels and the INPUT
+                                     VALUE handed to each Execute (the client model's callspec at payload := gval)
+     vcfg                            the plugin at the data level: boolean words / unit parser / environment / fuel of the
+                                     schema operations, the steps' input scope and output schemas (Call/Step.v plugin),
+                                     the step handlers, which calls are slow, the depths n_in / n_out of the CBOR round
+                                     trip on the two legs of the wire
+     tok_calls vcalls                the same session, the input of call i named by the token i
+     v_wire_in D vcalls i            cbor_norm n_in (input value of call i): what the server's decoder hands to CallStep
+     v_scfg D vcalls                 the plugin of ATP/System.v: the behaviour of token i is the class of
+                                     `call_step` (Call/Step.v: Unserialize, Validate, handler, output lookup, Validate,
+                                     Serialize) ON THE DECODED VALUE v_wire_in i
+     vsys_result D vcalls s i        what Execute i has returned, at the data level: for a work-done, output id and
+                                     cbor_norm n_out (the serialized output data of that server-side call_step)
+     v_call D v / v_spec D v         call_step "s" on a raw value v: (result, handler log, step-data tables) / the
+                                     in-process specification: the result of call_step on the value Execute WAS GIVEN,
+                                     the output data after its one CBOR round trip; every failure is ErrStep
+
+   STATEMENT: for every plugin, every session with or without Close whose inputs are decodable, every schedule of
+   the composed system, at the end of every maximal execution
+     (a) Execute number i has returned v_spec of ITS OWN input value - the output data the caller receives is
+         cbor_norm n_out (serialize (handler output)), the handler having run on unser (input): C05_transparent_reads;
+     (b) the CallStep the server ran on what came over the wire IS the in-process CallStep on the original value:
+         same result, same handler log (the handler SAW the same unserialized input: C05_norm_invariant), same
+         step-data tables;
+     (c) Close, if called, has returned nil.
+   ========================================================================================== *)
+Theorem C05_transparent_end_to_end :
+  forall (D : Verif.ATP.SystemV.vcfg) (vcalls : list (Verif.ATP.Client.callspec gval)) (close : bool),
+    (forall x, In x vcalls -> Verif.ATP.Client.cs_run x <> ""%string) ->
+    Verif.Proofs.ATPClientInv.wf_session (Verif.ATP.Client.mkSession vcalls close [] None None) ->
+    (forall x, In x vcalls -> decodable (Verif.ATP.Client.cs_input x)) ->
+    forall (sched : list Verif.ATP.System.slabel) (s : Verif.ATP.System.sstate),
+      Verif.ATP.System.sys_run (Verif.ATP.SystemV.v_scfg D vcalls)
+        (Verif.ATP.System.sys_init (Verif.ATP.SystemV.tok_calls vcalls) close) sched = Some s ->
+      Verif.ATP.System.sys_final (Verif.ATP.SystemV.v_scfg D vcalls) s ->
+      (forall i x, nth_error vcalls i = Some x ->
+         Verif.ATP.SystemV.vsys_result D vcalls s i
+           = Some (Verif.ATP.SystemV.v_spec D (Verif.ATP.Client.cs_input x)) /\
+         Verif.ATP.SystemV.v_call D (Verif.ATP.SystemV.v_wire_in D vcalls (Z.of_nat i))
+           = Verif.ATP.SystemV.v_call D (Verif.ATP.Client.cs_input x)) /\
+      (close = true ->
+         Verif.ATP.Client.closer (Verif.ATP.System.cl s) = Verif.ATP.Client.KDone Verif.ATP.Client.CloseOk).
+Proof. exact Verif.Proofs.C05Transparent.transparent. Qed.
+Print Assumptions C05_transparent_end_to_end.
+
+(* how (a) reads on the success path, in the terms of Schema/Ops.v *)
+Theorem C05_transparent_reads :
+  forall (D : Verif.ATP.SystemV.vcfg) (v : gval) (st : Verif.Call.Step.step_d) (n : gval)
+         (oid : string) (odata : gval) (os : schema) (w : gval),
+    alookup "s"%string (Verif.ATP.SystemV.v_plugin D) = Some st ->
+    unser (Verif.ATP.SystemV.v_words D) (Verif.ATP.SystemV.v_pu D) (Verif.ATP.SystemV.v_fuel D) (Verif.ATP.SystemV.v_env D)
+          (Verif.Call.Step.sd_input st) v = Ok n ->
+    validate (Verif.ATP.SystemV.v_words D) (Verif.ATP.SystemV.v_pu D) (Verif.ATP.SystemV.v_fuel D) (Verif.ATP.SystemV.v_env D)
+          (Verif.Call.Step.sd_input st) n = Ok tt ->
+    Verif.ATP.SystemV.v_handler D "s"%string n = (oid, odata) ->
+    alookup oid (Verif.Call.Step.sd_outputs st) = Some os ->
+    validate (Verif.ATP.SystemV.v_words D) (Verif.ATP.SystemV.v_pu D) (Verif.ATP.SystemV.v_fuel D) (Verif.ATP.SystemV.v_env D)
+          os odata = Ok tt ->
+    serialize (Verif.ATP.SystemV.v_words D) (Verif.ATP.SystemV.v_pu D) (Verif.ATP.SystemV.v_fuel D) (Verif.ATP.SystemV.v_env D)
+          os odata = Ok w ->
+    Verif.ATP.SystemV.v_spec D v = Verif.ATP.Client.ROk oid (cbor_norm (Verif.ATP.SystemV.v_nout D) w) /\
+    Verif.ATP.SystemV.v_seen D v = [n].
+Proof. exact Verif.Proofs.C05Transparent.v_spec_reads. Qed.
+Print Assumptions C05_transparent_reads.
+
+(* the data-layer half of (b) on its own: CallStep does not see the wire *)
+Theorem C05_callstep_norm_invariant :
+  forall words pu e fuel h ps p run sid n v, decodable v ->
+    Verif.Call.Step.call_step words pu e fuel h ps p run sid (cbor_norm n v)
+      = Verif.Call.Step.call_step words pu e fuel h ps p run sid v.
+Proof. exact Verif.Proofs.C05Transparent.call_step_norm. Qed.
+Print Assumptions C05_callstep_norm_invariant.
+
+(* ---- non-vacuity: a step that takes list[int 0..100] and echoes it; three overlapping calls whose inputs the wire
+   really changes (small ints, float32, numeric string, bool -> uint64 / float64 / []any), the third out of bounds;
+   Close while they are in flight; the maximal execution of Proofs/C05CloseEx.v.  Each Execute gets v_spec of its own
+   input; the handler of "a" is invoked on the same []int64 in-process and behind the wire; the rejected input never
+   reaches the handler ---- *)
+Example C05_transparent_nonvacuous :
+  exists s, Verif.Proofs.C05TransparentEx.exv_final = Some s /\
+            Verif.ATP.System.sys_final (Verif.ATP.SystemV.v_scfg Verif.Proofs.C05TransparentEx.exv_D Verif.Proofs.C05TransparentEx.exv_calls) s /\
+            Verif.ATP.SystemV.vsys_result Verif.Proofs.C05TransparentEx.exv_D Verif.Proofs.C05TransparentEx.exv_calls s 0%nat
+              = Some Verif.Proofs.C05TransparentEx.exv_ra /\
+            Verif.ATP.SystemV.v_spec Verif.Proofs.C05TransparentEx.exv_D Verif.Proofs.C05TransparentEx.exv_a
+              = Verif.Proofs.C05TransparentEx.exv_ra /\
+            Verif.ATP.SystemV.vsys_result Verif.Proofs.C05TransparentEx.exv_D Verif.Proofs.C05TransparentEx.exv_calls s 1%nat
+              = Some Verif.Proofs.C05TransparentEx.exv_rb /\
+            Verif.ATP.SystemV.v_spec Verif.Proofs.C05TransparentEx.exv_D Verif.Proofs.C05TransparentEx.exv_b
+              = Verif.Proofs.C05TransparentEx.exv_rb /\
+            Verif.ATP.SystemV.vsys_result Verif.Proofs.C05TransparentEx.exv_D Verif.Proofs.C05TransparentEx.exv_calls s 2%nat
+              = Some (Verif.ATP.Client.RErr Verif.ATP.Client.ErrStep) /\
+            Verif.ATP.SystemV.v_spec Verif.Proofs.C05TransparentEx.exv_D Verif.Proofs.C05TransparentEx.exv_c
+              = Verif.ATP.Client.RErr Verif.ATP.Client.ErrStep /\
+            Verif.ATP.Client.closer (Verif.ATP.System.cl s) = Verif.ATP.Client.KDone Verif.ATP.Client.CloseOk.
+Proof. exact Verif.Proofs.C05TransparentEx.exv_transparent. Qed.
+
+Example C05_transparent_wire_changes_input :
+  cbor_norm 3 Verif.Proofs.C05TransparentEx.exv_a <> Verif.Proofs.C05TransparentEx.exv_a /\
+  Verif.ATP.SystemV.v_seen Verif.Proofs.C05TransparentEx.exv_D Verif.Proofs.C05TransparentEx.exv_a
+    = [Verif.Proofs.C05TransparentEx.exv_seen_a] /\
+  Verif.ATP.SystemV.v_seen Verif.Proofs.C05TransparentEx.exv_D (cbor_norm 3 Verif.Proofs.C05TransparentEx.exv_a)
+    = [Verif.Proofs.C05TransparentEx.exv_seen_a] /\
+  Verif.ATP.SystemV.v_seen Verif.Proofs.C05TransparentEx.exv_D Verif.Proofs.C05TransparentEx.exv_c = [] /\
+  Verif.ATP.SystemV.v_seen Verif.Proofs.C05TransparentEx.exv_D (cbor_norm 3 Verif.Proofs.C05TransparentEx.exv_c) = [].
+Proof. exact Verif.Proofs.C05TransparentEx.exv_wire_changes. Qed.
+
+Example C05_transparent_hypotheses_hold :
+  (forall x, In x Verif.Proofs.C05TransparentEx.exv_calls -> Verif.ATP.Client.cs_run x <> ""%string) /\
+  Verif.Proofs.ATPClientInv.wf_session (Verif.ATP.Client.mkSession Verif.Proofs.C05TransparentEx.exv_calls true [] None None) /\
+  (forall x, In x Verif.Proofs.C05TransparentEx.exv_calls -> decodable (Verif.ATP.Client.cs_input x)).
+Proof. exact Verif.Proofs.C05TransparentEx.exv_hyps. Qed.
+
+(* ==========================================================================================
+   (P9) VERSION 1, SERIAL USE (the positive counterpart of C05_v1_concurrent_refuted / D26).  The version-1 framing
+   (ATP/System.v v1_step) under the discipline "an Execute is started only while no other call is in flight"
+   (v1_serial_step: the step that writes a work-start is enabled only if no caller sits between its write and its read;
+   every serial execution is an execution of the v1 model: C05_v1_serial_is_v1): in EVERY reachable state what Execute
+   i has returned is CallStep of ITS OWN input, and - when no step execution fails (a failing step ends a version-1
+   plugin) - a serial execution that can go no further has every Execute returned with that result.
+   ========================================================================================== *)
+Theorem C05_v1_serial :
+  forall (g : Verif.ATP.System.scfg) (inputs : list Z) (sched : list Verif.ATP.System.v1label) (s : Verif.ATP.System.v1state),
+    Verif.Proofs.C05V1Serial.v1_serial_run g (Verif.ATP.System.v1_init inputs) sched = Some s ->
+    (forall i t v, nth_error inputs i = Some t -> Verif.ATP.System.v1_result s i = Some v ->
+                   v = Verif.ATP.System.spec_callstep g t) /\
+    ((forall t, In t inputs -> exists o, Verif.ATP.Server.step_outcome (Verif.ATP.System.sc_srv g) "s"%string t
+                                           = Verif.ATP.Server.BSuccess o) ->
+     Verif.Proofs.C05V1Serial.v1_serial_final g s ->
+     forall i t, nth_error inputs i = Some t ->
+                 Verif.ATP.System.v1_result s i = Some (Verif.ATP.System.spec_callstep g t)).
+Proof. exact Verif.Proofs.C05V1Serial.v1_serial. Qed.
+Print Assumptions C05_v1_serial.
+
+Theorem C05_v1_serial_is_v1 :
+  forall (g : Verif.ATP.System.scfg) (ls : list Verif.ATP.System.v1label) (s s' : Verif.ATP.System.v1state),
+    Verif.Proofs.C05V1Serial.v1_serial_run g s ls = Some s' -> Verif.ATP.System.v1_run g s ls = Some s'.
+Proof. exact Verif.Proofs.C05V1Serial.v1_serial_is_run. Qed.
+Print Assumptions C05_v1_serial_is_v1.
+
+(* non-vacuity: the two calls of the D26 witness used serially return their own results; the overlapping schedule of
+   the witness is not a serial execution *)
+Example C05_v1_serial_nonvacuous :
+  exists s, Verif.Proofs.C05V1Serial.v1_serial_run Verif.Proofs.C05V1Serial.v1s_g (Verif.ATP.System.v1_init [1; 2])
+              Verif.Proofs.C05V1Serial.v1s_sched = Some s /\
+            Verif.Proofs.C05V1Serial.v1_serial_final Verif.Proofs.C05V1Serial.v1s_g s /\
+            Verif.ATP.System.v1_result s 0%nat = Some (Verif.ATP.Client.ROk "out-A"%string 10) /\
+            Verif.ATP.System.v1_result s 1%nat = Some (Verif.ATP.Client.ROk "out-B"%string 20).
+Proof. exact Verif.Proofs.C05V1Serial.v1s_example. Qed.
+
+Example C05_v1_overlap_is_not_serial :
+  Verif.Proofs.C05V1Serial.v1_serial_run Verif.Proofs.C05V1Serial.v1s_g (Verif.ATP.System.v1_init [1; 2])
+    [Verif.ATP.System.V1Caller 0; Verif.ATP.System.V1Caller 1; Verif.ATP.System.V1Server; Verif.ATP.System.V1Server;
+     Verif.ATP.System.V1Caller 1; Verif.ATP.System.V1Caller 0] = None.
+Proof. exact Verif.Proofs.C05V1Serial.v1s_overlap_excluded. Qed.
+
+(* ==========================================================================================
+   (P10) CLEAN SHUTDOWN of the server side.  In a session that calls Close, at the end of every maximal execution
+   RunATPServer has returned: the closure handler is in HReturned, the run() goroutine is gone (workDone closed), the wait
+   group of the step / signal goroutines is 0, the report channel is empty, the process has not crashed, and the pipe
+   is empty.  With C05_refines_with_close: both sides have shut down, nothing is left blocked anywhere.
+   (Proofs/C05Shutdown.v; extra invariant: once Close is in KWait / KDone CloseOk a client-done is in the client ->
+   server stream or in the history of what the server's read loop consumed; a consumed client-done has closed stdin.)
+   ========================================================================================== *)
+Theorem C05_clean_shutdown :
+  forall (g : Verif.ATP.System.scfg) (calls : list (Verif.ATP.Client.callspec Z)) (close : bool),
+    (forall x, In x calls -> Verif.ATP.Client.cs_run x <> ""%string) ->
+    Verif.Proofs.ATPClientInv.wf_session (Verif.ATP.System.sys_session calls close) ->
+    close = true ->
+    forall (sched : list Verif.ATP.System.slabel) (s : Verif.ATP.System.sstate),
+      Verif.ATP.System.sys_run g (Verif.ATP.System.sys_init calls close) sched = Some s ->
+      Verif.ATP.System.sys_final g s ->
+      Verif.ATP.Server.hp (Verif.ATP.System.sv s) = Verif.ATP.Server.HReturned /\
+      Verif.ATP.Server.rl (Verif.ATP.System.sv s) = Verif.ATP.Server.RGone /\
+      Verif.ATP.Server.nworkers (Verif.ATP.System.sv s) = 0%nat /\
+      Verif.ATP.Server.wd (Verif.ATP.System.sv s) = [] /\
+      Verif.ATP.Server.crashed (Verif.ATP.System.sv s) = false /\
+      Verif.ATP.Client.to_server (Verif.ATP.System.cl s) = [].
+Proof. exact Verif.Proofs.C05Shutdown.sys_shutdown. Qed.
+Print Assumptions C05_clean_shutdown.
+(* non-vacuity: C05_refines_with_close_nonvacuous above ends in exactly such a state (HReturned, RGone). *)
+
+(* ==========================================================================================
+   (P11) WHY PAYLOADS ARE NAMES.  The client model is parametric in its payload type AS A THEOREM: for every function
+   f : P -> Q, mapping f over every payload held anywhere in a client state (callers' inputs, stored and returned
+   results, both streams, the read-ahead buffer, the message being handled, the scripted peer) commutes with every step of
+   every label (Proofs/C05Param.v, by cases over the whole step function).  Consequently the executions of the client
+   model at payload := gval, started on the session as the harness states it, are exactly the images - label for label,
+   token t replaced by the value v_input t it names - of the executions at payload := Z that ATP/System.v composes with
+   the server model.  (The server model consults a payload only through its behaviour oracle: ATP/Server.v.)
+   ========================================================================================== *)
+Theorem C05_client_payload_parametric :
+  forall (P Q : Type) (f : P -> Q) (s : Verif.ATP.Client.state P) (l : Verif.ATP.Client.label),
+    Verif.ATP.Client.step (Verif.Proofs.C05Param.map_state P Q f s) l
+      = option_map (Verif.Proofs.C05Param.map_state P Q f) (Verif.ATP.Client.step s l).
+Proof. exact Verif.Proofs.C05Param.step_map. Qed.
+Print Assumptions C05_client_payload_parametric.
+
+Theorem C05_client_over_values :
+  forall (vcalls : list (Verif.ATP.Client.callspec gval)) (close : bool) (ls : list Verif.ATP.Client.label),
+    Verif.ATP.Client.run (Verif.ATP.Client.init (Verif.ATP.Client.mkSession vcalls close [] None None)) ls
+      = option_map (Verif.Proofs.C05Param.map_state Z gval (Verif.ATP.SystemV.v_input vcalls))
+          (Verif.ATP.Client.run
+             (Verif.ATP.Client.init (Verif.ATP.System.sys_session (Verif.ATP.SystemV.tok_calls vcalls) close)) ls).
+Proof. exact Verif.Proofs.C05Transparent.client_over_values. Qed.
+Print Assumptions C05_client_over_values.
+
+(* ==========================================================================================
+   (P12) THE VALUE-LEVEL SYSTEM (ATP/SystemVal.v): the composition as a transition system of its own in which the client
+   component is the client model at payload := gval - the callers hold the real input values, the work-starts on the wire
+   carry them, the results carry real output values -, the server component is the server model, and tokens are only the
+   NAMES under which the server model is handed the messages (the call of the message's run id).  vsys_step mirrors
+   sys_step label for label.
+     C05_value_level_is_image   the executions of the value-level system from the session as the harness states it ARE
+                                the images of the token-level executions (label for label, every payload t replaced by
+                                the value v_den t it names, the server component identical) - no assumption that the
+                                value crossing the pipe is "the right one": the client-side safety invariant and SigInv
+                                (Proofs/C05Image.v) make the name the server receives equal to the token;
+     C05_transparent_values     hence C05_transparent_end_to_end verbatim for the value-level system: every Execute
+                                returns the real value v_spec of its own input value, Close returns nil;
+     C05_value_wire             every work-start in the value-level pipe carries the input value of the call its run id
+                                names.
+   ========================================================================================== *)
+Theorem C05_value_level_is_image :
+  forall (D : Verif.ATP.SystemV.vcfg) (vcalls : list (Verif.ATP.Client.callspec gval)) (close : bool),
+    (forall x, In x vcalls -> Verif.ATP.Client.cs_run x <> ""%string) ->
+    Verif.Proofs.ATPClientInv.wf_session (Verif.ATP.Client.mkSession vcalls close [] None None) ->
+    forall (sched : list Verif.ATP.System.slabel),
+      Verif.ATP.SystemVal.vsys_run D vcalls (Verif.ATP.SystemVal.vsys_init vcalls close) sched
+        = option_map (Verif.Proofs.C05Image.img D vcalls)
+            (Verif.ATP.System.sys_run (Verif.ATP.SystemV.v_scfg D vcalls)
+               (Verif.ATP.System.sys_init (Verif.ATP.SystemV.tok_calls vcalls) close) sched).
+Proof. exact Verif.Proofs.C05Image.vsys_is_image. Qed.
+Print Assumptions C05_value_level_is_image.
+
+Theorem C05_transparent_values :
+  forall (D : Verif.ATP.SystemV.vcfg) (vcalls : list (Verif.ATP.Client.callspec gval)) (close : bool),
+    (forall x, In x vcalls -> Verif.ATP.Client.cs_run x <> ""%string) ->
+    Verif.Proofs.ATPClientInv.wf_session (Verif.ATP.Client.mkSession vcalls close [] None None) ->
+    (forall x, In x vcalls -> decodable (Verif.ATP.Client.cs_input x)) ->
+    forall (sched : list Verif.ATP.System.slabel) (vs : Verif.ATP.SystemVal.vstate),
+      Verif.ATP.SystemVal.vsys_run D vcalls (Verif.ATP.SystemVal.vsys_init vcalls close) sched = Some vs ->
+      Verif.ATP.SystemVal.vsys_final D vcalls vs ->
+      (forall i x, nth_error vcalls i = Some x ->
+         Verif.ATP.SystemVal.vsys_res vs i = Some (Verif.ATP.SystemV.v_spec D (Verif.ATP.Client.cs_input x))) /\
+      (close = true ->
+         Verif.ATP.Client.closer (Verif.ATP.SystemVal.vcl vs) = Verif.ATP.Client.KDone Verif.ATP.Client.CloseOk).
+Proof. exact Verif.Proofs.C05Image.transparent_values. Qed.
+Print Assumptions C05_transparent_values.
+
+Theorem C05_value_wire :
+  forall (D : Verif.ATP.SystemV.vcfg) (vcalls : list (Verif.ATP.Client.callspec gval)) (close : bool),
+    (forall x, In x vcalls -> Verif.ATP.Client.cs_run x <> ""%string) ->
+    Verif.Proofs.ATPClientInv.wf_session (Verif.ATP.Client.mkSession vcalls close [] None None) ->
+    forall (sched : list Verif.ATP.System.slabel) (vs : Verif.ATP.SystemVal.vstate),
+      Verif.ATP.SystemVal.vsys_run D vcalls (Verif.ATP.SystemVal.vsys_init vcalls close) sched = Some vs ->
+      Forall (Verif.Proofs.C05Image.ws_ok vcalls) (Verif.ATP.Client.to_server (Verif.ATP.SystemVal.vcl vs)).
+Proof. exact Verif.Proofs.C05Image.image_wire. Qed.
+Print Assumptions C05_value_wire.
+
+(* non-vacuity: the session of C05_transparent_nonvacuous run by the value-level system, same schedule: a maximal
+   execution; the three Executes hold real values *)
+Example C05_transparent_values_nonvacuous :
+  exists vs, Verif.Proofs.C05ImageEx.exv_vfinal = Some vs /\
+             Verif.ATP.SystemVal.vsys_final Verif.Proofs.C05TransparentEx.exv_D Verif.Proofs.C05TransparentEx.exv_calls vs /\
+             Verif.ATP.SystemVal.vsys_res vs 0%nat = Some Verif.Proofs.C05TransparentEx.exv_ra /\
+             Verif.ATP.SystemVal.vsys_res vs 1%nat = Some Verif.Proofs.C05TransparentEx.exv_rb /\
+             Verif.ATP.SystemVal.vsys_res vs 2%nat = Some (Verif.ATP.Client.RErr Verif.ATP.Client.ErrStep) /\
+             Verif.ATP.Client.closer (Verif.ATP.SystemVal.vcl vs) = Verif.ATP.Client.KDone Verif.ATP.Client.CloseOk.
+Proof. exact Verif.Proofs.C05ImageEx.exv_values. Qed.
